@@ -173,7 +173,15 @@ impl Parser {
 
         let (else_statement, do_all_else_branches_return) =
             if let Some(else_statement) = else_statement {
-                let else_scope: ScopeHandle = input.user_data().push_else_typed(child_returns_type);
+                // the `else` branch starts from scratch: whether the `if` branch returned says nothing about it
+                let else_returns_type = input
+                    .user_data()
+                    .return_statement_expected_yield_type()
+                    .map_or_else(
+                        || ScopeReturnStatus::No,
+                        |ty| ScopeReturnStatus::ParentShould(ty.clone()),
+                    );
+                let else_scope: ScopeHandle = input.user_data().push_else_typed(else_returns_type);
                 let else_statement = Self::else_statement(else_statement);
 
                 let child_returns_type = else_scope.consume();
